@@ -358,3 +358,488 @@ def inv_kinetics(chem, k):
         for nm, coef in c["namecoef"]:
             inv_add(a, fml_items(chem, nm, c["m"] * coef))
     return a
+
+
+# ------------------------------------------------------------------------------------------------ Coq terms
+
+def cq(x):
+    fr = F(x)
+    return "(%d # %d)" % (fr.numerator, fr.denominator) if fr >= 0 else "(- (%d # %d))" % (-fr.numerator, fr.denominator)
+
+
+def cinv(items):
+    return "[" + "; ".join('("%s", %s)' % (e, cq(v)) for e, v in items) + "]"
+
+
+def cfml(chem, name):
+    return cinv(sorted(chem.formula_of(name).items()))
+
+
+def copt(x):
+    return "None" if x is None else "(Some %s)" % x
+
+
+def c_solution(s):
+    return "(mkSol %s %s %s %s)" % (cinv(s["totals"]), cq(s["h"]), cq(s["o"]), cq(s["cb"]))
+
+
+def c_exchange(x):
+    return "(mkExch %s [%s])" % ("true" if x["new_def"] else "false",
+                                 "; ".join("mkEC %s %s" % (cinv(c["totals"]), cq(c["cb"])) for c in x["comps"]))
+
+
+STYPE = ["UNKNOWN_DL", "NO_EDL", "DDL", "CD_MUSIC", "CCM"]
+DLTYPE = ["NO_DL", "BORKOVEK_DL", "DONNAN_DL"]
+
+
+def c_surface(s):
+    return "(mkSurf %s %s %s [%s] [%s])" % (
+        STYPE[s["type"]], DLTYPE[s["dl_type"]], "true" if s["new_def"] else "false",
+        "; ".join("mkSC %s %s" % (cinv(c["totals"]), cq(c["cb"])) for c in s["comps"]),
+        "; ".join("mkSQ %s %s" % (cq(q["cb"]), cinv(q["dl"])) for q in s["charges"]))
+
+
+def c_pas(chem, comps):
+    return "[" + "; ".join("mkPA %s %s" % (cfml(chem, c["name"]), cq(c["moles"])) for c in comps) + "]"
+
+
+def c_pp(chem, b, comps):
+    elts = []
+    precip = {}
+    cur = None
+    for opt, args, rows in b:
+        if opt == "eltList":
+            elts = [r[0] for r in rows]
+        elif opt == "component":
+            cur = args[0]
+        elif opt == "precipitate_only" and cur:
+            precip[cur] = args[0] != "0"
+    return "(mkPPA [%s] [%s])" % ("; ".join('"%s"' % e for e in elts),
+                                  "; ".join("mkPP %s %s %s 0" % (cfml(chem, c.get("add_formula") or c["name"]), cq(c["moles"]),
+                                                                 "true" if precip.get(c["name"]) else "false") for c in comps))
+
+
+def kin_formula(chem, c):
+    a = {}
+    for nm, coef in c["namecoef"]:
+        inv_add(a, fml_items(chem, nm, coef))
+    return sorted(a.items())
+
+
+def c_kin(chem, k):
+    return "(mkKin [%s] [])" % "; ".join("mkKC %s %s" % (cinv(kin_formula(chem, c)), cq(c["m"])) for c in k["comps"])
+
+
+# ------------------------------------------------------------------------------------------------ generator
+
+SOL_MENU = [  # element, low, high (mmol/kgw), probability
+    ("Na", 1, 100, 0.9), ("K", 0.1, 10, 0.6), ("Ca", 0.1, 10, 0.8), ("Mg", 0.1, 10, 0.6), ("S(6)", 0.1, 10, 0.6),
+    ("C(4)", 0.5, 5, 0.7), ("Sr", 0.01, 0.5, 0.35), ("Ba", 0.001, 0.01, 0.2), ("Si", 0.05, 0.5, 0.3),
+    ("N(5)", 0.05, 2, 0.15), ("Br", 0.01, 1, 0.1)]
+PP_MENU = ["Calcite", "Dolomite", "Gypsum", "Celestite", "Barite", "Quartz", "Aragonite", "Anhydrite", "Halite", "Chalcedony", "Strontianite", "Witherite"]
+SS_MENU = [("CaSrCO3", "Calcite", "Strontianite"), ("BaSrSO4", "Barite", "Celestite"), ("CaSO4ss", "Anhydrite", "Celestite"),
+           ("CaBaCO3", "Aragonite", "Witherite")]
+GAS_MENU = ["CO2(g)", "N2(g)", "O2(g)", "H2O(g)", "CH4(g)"]
+RXN_MENU = [("NaCl", 1), ("HCl", 1), ("CaCl2", 1), ("NaOH", 1), ("KCl", 1), ("MgSO4", 1), ("CO2", 1), ("Calcite", 1), ("Gypsum", 1),
+            ("H2O", 1), ("NaHCO3", 1), ("SrCl2", 0.1), ("BaCl2", 0.01), ("SiO2", 0.1), ("Na2SO4", 1), ("O2", 0.01), ("KBr", 0.1),
+            ("Halite", 1), ("CaSO4:2H2O", 0.5), ("Mg(OH)2", 0.3), ("K2CO3", 0.5)]
+KIN_MENU = [  # rate name, formula list, phase for SR
+    ("Quartz", [("SiO2", 1)], "Quartz"), ("Calcite", [("CaCO3", 1)], "Calcite"), ("Gypsum", [("Gypsum", 1)], "Gypsum"),
+    ("Salts", [("NaCl", 1), ("KCl", 0.5)], None), ("Dolo", [("CaMg(CO3)2", 1)], "Dolomite"), ("Celest", [("Celestite", 1)], "Celestite")]
+
+
+def fnum(x):
+    return ("%.6g" % x)
+
+
+def lu(rng, lo, hi):
+    return math.exp(rng.uniform(math.log(lo), math.log(hi)))
+
+
+def gen_system(rng):
+    """-> dict describing one random one-cell system with a chain of USE/SAVE simulations"""
+    S = {"db": "phreeqc.dat", "sols": [], "sims": []}
+    nsol = 1 if rng.random() < 0.6 else rng.choice([2, 3])
+    for i in range(nsol):
+        comp = [(e, lu(rng, lo, hi)) for e, lo, hi, p in SOL_MENU if rng.random() < p]
+        if not any(e == "Na" for e, _ in comp):
+            comp.append(("Na", lu(rng, 1, 50)))
+        S["sols"].append({"n": i + 1, "pH": round(rng.uniform(5.5, 8.8), 2), "temp": rng.choice([25, 25, 25, 15, 35]),
+                          "comp": comp, "water": rng.choice([1, 1, 1, 0.5, 2])})
+    S["exchange"] = None
+    if rng.random() < 0.5:
+        if rng.random() < 0.7:
+            S["exchange"] = {"kind": "equil", "X": lu(rng, 1e-3, 0.2)}
+        else:
+            S["exchange"] = {"kind": "explicit", "comps": [("NaX", lu(rng, 1e-3, 0.05)), ("CaX2", lu(rng, 1e-3, 0.05))] +
+                             ([("KX", lu(rng, 1e-4, 0.01))] if rng.random() < 0.5 else [])}
+    S["surface"] = None
+    if rng.random() < 0.5:
+        S["surface"] = {"w": lu(rng, 1e-4, 5e-3), "s": (lu(rng, 1e-5, 2e-4) if rng.random() < 0.6 else None),
+                        "area": rng.choice([600, 300, 100]), "grams": round(lu(rng, 0.1, 5), 3),
+                        "mode": rng.choice(["ddl", "ddl", "donnan", "donnan", "no_edl", "diffuse_layer", "donnan_oci"])}
+    S["pp"] = None
+    if rng.random() < 0.6:
+        names = rng.sample(PP_MENU, rng.choice([1, 1, 2, 3]))
+        comps = [(nm, 0.0, rng.choice([0, 0, 1e-4, 1e-3, 0.01, 0.1])) for nm in names]
+        if rng.random() < 0.3:
+            comps.append(("CO2(g)", round(rng.uniform(-3.5, -1.0), 2), rng.choice([10, 0.01, 0.001])))
+        S["pp"] = comps
+    S["gas"] = None
+    if rng.random() < 0.4:
+        names = rng.sample(GAS_MENU, rng.choice([1, 2, 3]))
+        S["gas"] = {"fixed_p": rng.random() < 0.5, "p": rng.choice([1, 1, 2, 0.5]), "vol": round(lu(rng, 0.05, 2), 3),
+                    "comps": [(nm, (lu(rng, 1e-3, 0.5) if nm != "H2O(g)" else 0.03)) for nm in names]}
+    S["ss"] = None
+    if rng.random() < 0.35:
+        nm, a, b = rng.choice(SS_MENU)
+        S["ss"] = [(nm, [(a, rng.choice([0, 1e-4, 1e-3, 0.01])), (b, rng.choice([0, 1e-5, 1e-4, 1e-3]))])]
+    S["kin"] = None
+    if rng.random() < 0.4:
+        ks = rng.sample(KIN_MENU, rng.choice([1, 1, 2]))
+        S["kin"] = {"comps": [(nm, fl, ph, lu(rng, 1e-3, 1.0), lu(rng, 1e-9, 1e-6)) for nm, fl, ph in ks],
+                    "time": rng.choice([100, 1000, 3600, 86400]), "nsteps": rng.choice([1, 1, 2, 3]),
+                    "rk": rng.choice([3, 3, 6, "cvode"])}
+    nsim = rng.choice([1, 2, 2, 3, 4])
+    for k in range(nsim):
+        sim = {"incr": rng.random() < 0.5}
+        if nsol > 1 and rng.random() < 0.6:
+            ids = rng.sample(range(1, nsol + 1), rng.choice(range(2, nsol + 1)))
+            if 1 not in ids:
+                ids[0] = 1
+            sim["mix"] = [(i, round(rng.choice([rng.uniform(0.1, 1.5), rng.uniform(0.1, 1.0), 0.5, 1.0]), 3)) for i in sorted(ids)]
+        else:
+            sim["mix"] = None
+        sim["rxn"] = None
+        if rng.random() < 0.85:
+            rs = rng.sample(RXN_MENU, rng.choice([1, 1, 2, 3]))
+            reactants = [(nm, round(rng.choice([1, 1, 0.5, 2, rng.uniform(0.1, 2)]) * w * (-1 if rng.random() < 0.08 else 1), 4)) for nm, w in rs]
+            units = rng.choice(["moles", "mmol", "mmol", "umol", "mol"])
+            base = {"moles": lu(rng, 1e-5, 5e-3), "mol": lu(rng, 1e-5, 5e-3), "mmol": lu(rng, 1e-2, 5), "umol": lu(rng, 5, 5000)}[units]
+            if rng.random() < 0.5:
+                n = rng.choice([1, 2, 3, 4, 6])
+                sim["rxn"] = {"reactants": reactants, "units": units, "equal": True, "steps": [round(base, 6)], "count": n}
+            else:
+                n = rng.choice([1, 2, 3, 4])
+                st = sorted(round(base * rng.uniform(0.2, 1.0), 7) for _ in range(n))
+                sim["rxn"] = {"reactants": reactants, "units": units, "equal": False, "steps": st, "count": n}
+        sim["temps"] = None
+        if rng.random() < 0.15:
+            sim["temps"] = [rng.choice([20, 25, 30, 40]) for _ in range(rng.choice([2, 3, 5]))]
+        sim["run_cells"] = False
+        S["sims"].append(sim)
+    return S
+
+
+def rates_block(kin):
+    out = ["RATES"]
+    for nm, fl, ph, m0, k in kin["comps"]:
+        out.append("  %s\n  -start" % nm)
+        if ph:
+            out.append('  10 rate = parm(1) * (1 - SR("%s"))' % ph)
+        else:
+            out.append("  10 rate = parm(1) * M / M0")
+        out += ["  20 moles = rate * TIME", "  30 if (moles > M) then moles = M", "  40 SAVE moles", "  -end"]
+    return out
+
+
+def render_input(S):
+    L = []
+    for s in S["sols"]:
+        L.append("SOLUTION %d" % s["n"])
+        L.append("  temp %s\n  pH %s\n  water %s" % (s["temp"], s["pH"], s["water"]))
+        z = {"Na": 1, "K": 1, "Ca": 2, "Mg": 2, "Sr": 2, "Ba": 2, "S(6)": -2, "C(4)": -1, "N(5)": -1, "Br": -1, "Si": 0}
+        net = sum(z.get(e, 0) * v for e, v in s["comp"])
+        if net > 0.5:
+            for e, v in s["comp"]:
+                L.append("  %s %s" % (e, fnum(v)))
+            L.append("  Cl %s charge" % fnum(net))
+        else:
+            for e, v in s["comp"]:
+                L.append("  %s %s%s" % (e, fnum(v - net + 1 if e == "Na" else v), " charge" if e == "Na" else ""))
+            L.append("  Cl 1")
+    x = S["exchange"]
+    if x:
+        L.append("EXCHANGE 1")
+        if x["kind"] == "equil":
+            L.append("  X %s\n  -equilibrate 1" % fnum(x["X"]))
+        else:
+            for nm, v in x["comps"]:
+                L.append("  %s %s" % (nm, fnum(v)))
+    sf = S["surface"]
+    if sf:
+        L.append("SURFACE 1")
+        L.append("  Hfo_w %s %s %s" % (fnum(sf["w"]), sf["area"], sf["grams"]))
+        if sf["s"]:
+            L.append("  Hfo_s %s" % fnum(sf["s"]))
+        L.append("  -equilibrate 1")
+        L += {"ddl": [], "donnan": ["  -donnan"], "no_edl": ["  -no_edl"], "diffuse_layer": ["  -diffuse_layer 1e-8"],
+              "donnan_oci": ["  -donnan", "  -only_counter_ions"]}[sf["mode"]]
+    if S["pp"]:
+        L.append("EQUILIBRIUM_PHASES 1")
+        for nm, si, m in S["pp"]:
+            L.append("  %s %s %s" % (nm, si, fnum(m)))
+    g = S["gas"]
+    if g:
+        L.append("GAS_PHASE 1")
+        L.append("  -fixed_pressure\n  -pressure %s" % g["p"] if g["fixed_p"] else "  -fixed_volume")
+        L.append("  -volume %s\n  -temperature 25" % g["vol"])
+        for nm, p in g["comps"]:
+            L.append("  %s %s" % (nm, fnum(p)))
+    if S["ss"]:
+        L.append("SOLID_SOLUTIONS 1")
+        for nm, comps in S["ss"]:
+            L.append("  %s" % nm)
+            for c, m in comps:
+                L.append("    -comp %s %s" % (c, fnum(m)))
+    k = S["kin"]
+    if k:
+        L.append("KINETICS 1")
+        for nm, fl, ph, m0, kk in k["comps"]:
+            L.append("  %s\n    -formula %s\n    -m0 %s\n    -parms %s" % (nm, " ".join("%s %s" % (f, c) for f, c in fl), fnum(m0), fnum(kk)))
+        L.append("  -steps %s in %d steps" % (k["time"], k["nsteps"]))
+        if k["rk"] == "cvode":
+            L.append("  -cvode true")
+        else:
+            L.append("  -runge_kutta %s" % k["rk"])
+        L += rates_block(k)
+    L.append("SELECTED_OUTPUT 1\n  -reset false\n  -simulation true\n  -state true\n  -step true")
+    L.append("USER_PUNCH 1\n  -headings %s CB %s" % (" ".join("SYS_" + e for e in ELEMENTS),
+                                                   " ".join("KIN_" + c[0] for c in (k["comps"] if k else []))))
+    L.append("  10 PUNCH %s" % ", ".join('SYS("%s")' % e for e in ELEMENTS))
+    L.append("  20 PUNCH CHARGE_BALANCE")
+    if k:
+        L.append("  30 PUNCH %s" % ", ".join('KIN("%s")' % c[0] for c in k["comps"]))
+    L.append("USE solution none\nDUMP\n  -all\nEND")
+    for i, sim in enumerate(S["sims"]):
+        L.append("INCREMENTAL_REACTIONS %s" % ("true" if sim["incr"] else "false"))
+        if sim["mix"]:
+            L.append("MIX 1")
+            for n, f in sim["mix"]:
+                L.append("  %d %s" % (n, f))
+            L.append("USE mix 1")
+        else:
+            L.append("USE solution 1")
+        for kw, key in (("exchange", "exchange"), ("surface", "surface"), ("equilibrium_phases", "pp"), ("gas_phase", "gas"),
+                        ("solid_solutions", "ss"), ("kinetics", "kin")):
+            if S[key]:
+                L.append("USE %s 1" % kw)
+        r = sim["rxn"]
+        if r:
+            L.append("REACTION 1")
+            L.append("  " + " ".join("%s %s" % (nm, c) for nm, c in r["reactants"]))
+            if r["equal"]:
+                L.append("  %s %s in %d steps" % (fnum(r["steps"][0]), r["units"], r["count"]))
+            else:
+                L.append("  %s %s" % (" ".join(fnum(x) for x in r["steps"]), r["units"]))
+        else:
+            L.append("USE reaction none")
+        if sim["temps"]:
+            L.append("REACTION_TEMPERATURE 1\n  %s" % " ".join(str(t) for t in sim["temps"]))
+        else:
+            L.append("USE reaction_temperature none")
+        L.append("SAVE solution 1")
+        for kw, key in (("exchange", "exchange"), ("surface", "surface"), ("equilibrium_phases", "pp"), ("gas_phase", "gas"),
+                        ("solid_solutions", "ss")):
+            if S[key]:
+                L.append("SAVE %s 1" % kw)
+        L.append("DUMP\n  -all\n  -append true\nEND")
+    return "\n".join(L) + "\n"
+
+
+# ------------------------------------------------------------------------------------------------ analysis of one run
+
+def ent_reaction(b):
+    r = {"reactants": [], "steps": [], "count": 0, "equal": False, "units": "Mol"}
+    for opt, args, rows in b:
+        if opt == "reactant_list":
+            r["reactants"] = _nd(rows)
+        elif opt == "steps":
+            r["steps"] = [F(t) for row in rows for t in row] + [F(t) for t in args]
+        elif opt == "count_steps":
+            r["count"] = int(args[0])
+        elif opt == "equal_increments":
+            r["equal"] = args[0] != "0"
+        elif opt == "units" and args:
+            r["units"] = args[0]
+    return r
+
+
+def step_x_py(incr, equal, steps, count, n, units):
+    """python mirror of StepTable.model_stepf (diagnostics only)"""
+    L = len(steps)
+    if not incr:
+        if not equal and L > 0:
+            x = steps[L - 1] if n > L else steps[n - 1]
+        elif equal and L > 0:
+            x = steps[0] if n > count else steps[0] * n / count
+        else:
+            x = F(0)
+    else:
+        if not equal and L > 0:
+            idx = (count - 1) if n > count else (n - 1)
+            x = steps[idx] if 0 <= idx < L else F(0)
+        elif equal and L > 0:
+            x = F(0) if n > count else steps[0] / count
+        else:
+            x = F(0)
+    c = units[:1]
+    return x * {"m": F(1, 1000), "u": F(1, 10 ** 6), "n": F(1, 10 ** 9)}.get(c, F(1))
+
+
+def total_amount_py(incr, equal, steps, count, units, nsteps):
+    if incr:
+        return sum((step_x_py(True, equal, steps, count, k, units) for k in range(1, nsteps + 1)), F(0))
+    return step_x_py(False, equal, steps, count, nsteps, units)
+
+
+KINDS = [("EXCHANGE", "exchange"), ("SURFACE", "surface"), ("GAS_PHASE", "gas"), ("EQUILIBRIUM_PHASES", "pp"),
+         ("SOLID_SOLUTIONS", "ss"), ("KINETICS", "kin")]
+
+
+class Skip(Exception):
+    pass
+
+
+def build_cases(chem, S, result):
+    """-> list of dicts {coq: text of a ccase, sim, expected: {e: F}, after: {e: F}, amounts: [...], rows: [...]}"""
+    dumps = split_dumps(result.get("dump", ""))
+    if len(dumps) != len(S["sims"]) + 1:
+        raise Skip("dump count %d != %d" % (len(dumps), len(S["sims"]) + 1))
+    rows = vlib.table_dicts(result["tables"].get("1"))
+    out = []
+    prev = parse_dump(dumps[0])
+    for k, sim in enumerate(S["sims"]):
+        cur = parse_dump(dumps[k + 1])
+        simno = k + 2
+        srows = [r for r in rows if r.get("sim") == simno and r.get("state") == "react"]
+        nsteps = len(srows)
+        if nsteps < 1:
+            raise Skip("no reaction rows for simulation %d" % simno)
+        # --- before
+        if sim["mix"]:
+            mix = [(F(str(f)), ent_solution(prev[("SOLUTION", n)])) for n, f in sim["mix"]]
+            c_mix, c_sol = "(Some [%s])" % "; ".join("(%s, %s)" % (cq(f), c_solution(s)) for f, s in mix), "None"
+        else:
+            mix = [(F(1), ent_solution(prev[("SOLUTION", 1)]))]
+            c_mix, c_sol = "None", copt(c_solution(mix[0][1]))
+        expected = {}
+        for f, s in mix:
+            inv_add(expected, sorted(inv_solution(s, f).items()))
+        cb, ca = {}, {}
+        amounts = []
+        for KW, key in KINDS:
+            if not S[key]:
+                cb[key] = ca[key] = "None"
+                continue
+            if (KW, 1) not in prev or (KW, 1) not in cur:
+                raise Skip("%s 1 missing in dump" % KW)
+            bb, ba = prev[(KW, 1)], cur[(KW, 1)]
+            if key == "exchange":
+                eb, ea = ent_exchange(bb), ent_exchange(ba)
+                cb[key], ca[key] = copt(c_exchange(eb)), copt(c_exchange(ea))
+                ib, ia = inv_exchange(eb), inv_exchange(ea)
+                amounts += [v for c in ea["comps"] for _, v in c["totals"]]
+            elif key == "surface":
+                eb, ea = ent_surface(bb), ent_surface(ba)
+                cb[key], ca[key] = copt(c_surface(eb)), copt(c_surface(ea))
+                ib, ia = inv_surface(eb), inv_surface(ea)
+            elif key in ("gas", "ss"):
+                eb, ea = (ent_gas if key == "gas" else ent_ss)(bb), (ent_gas if key == "gas" else ent_ss)(ba)
+                cb[key], ca[key] = copt(c_pas(chem, eb)), copt(c_pas(chem, ea))
+                ib, ia = inv_phases(chem, eb), inv_phases(chem, ea)
+                amounts += [c["moles"] for c in ea]
+            elif key == "pp":
+                eb, ea = ent_pp(bb), ent_pp(ba)
+                cb[key], ca[key] = copt(c_pp(chem, bb, eb)), copt(c_pp(chem, ba, ea))
+                ib, ia = inv_phases(chem, eb), inv_phases(chem, ea)
+                amounts += [c["moles"] for c in ea]
+            else:
+                eb, ea = ent_kinetics(bb), ent_kinetics(ba)
+                cb[key], ca[key] = copt(c_kin(chem, eb)), copt(c_kin(chem, ea))
+                ib, ia = inv_kinetics(chem, eb), inv_kinetics(chem, ea)
+                amounts += [c["m"] for c in ea["comps"]]
+            inv_add(expected, sorted(ib.items()))
+            ca[key + "_inv"] = ia
+        sa = ent_solution(cur[("SOLUTION", 1)])
+        after = {}
+        inv_add(after, sorted(inv_solution(sa).items()))
+        for KW, key in KINDS:
+            if S[key]:
+                inv_add(after, sorted(ca[key + "_inv"].items()))
+        # --- reaction
+        if sim["rxn"]:
+            if ("REACTION", 1) not in cur:
+                raise Skip("REACTION 1 missing in dump")
+            r = ent_reaction(cur[("REACTION", 1)])
+            count = r["count"] if r["equal"] else len(r["steps"])
+            amt = total_amount_py(sim["incr"], r["equal"], r["steps"], count, r["units"], nsteps)
+            rinv = {}
+            for nm, coef in r["reactants"]:
+                inv_add(rinv, fml_items(chem, nm, coef))
+            inv_add(expected, sorted(rinv.items()), amt)
+            c_rxn = "(Some [%s])" % "; ".join("(%s, %s)" % (cq(coef), cfml(chem, nm)) for nm, coef in r["reactants"])
+            c_step = "%s [%s] (%d) (%d)" % ("true" if r["equal"] else "false", "; ".join(cq(x) for x in r["steps"]), count, ord(r["units"][0]))
+        else:
+            r, amt, rinv = None, F(0), {}
+            c_rxn = "None"
+            c_step = "false [] (0) (77)"
+        use = "(mkUse %s %s %s None %s %s %s %s %s)" % (c_mix, c_sol, c_rxn, cb["exchange"], cb["surface"], cb["gas"], cb["pp"], cb["ss"])
+        ents = "(mkEnts %s %s %s %s %s %s %s)" % (c_solution(sa), ca["exchange"], ca["surface"], ca["gas"], ca["pp"], ca["ss"], ca["kin"])
+        coq = "(mkCase %s %s %s %s %d%%nat %s)" % (use, cb["kin"], "true" if sim["incr"] else "false", c_step, nsteps, ents)
+        # --- per-step rows: SYS(e) + kinetic reactants = before + cumulative reaction
+        steprows = []
+        base = dict(expected)
+        inv_add(base, sorted(rinv.items()), -amt)
+        for i, row in enumerate(srows, 1):
+            a_k = total_amount_py(sim["incr"], r["equal"], r["steps"], r["count"] if r["equal"] else len(r["steps"]), r["units"], i) if r else F(0)
+            obs = {e: F(row["SYS_" + e]) for e in ELEMENTS if isinstance(row.get("SYS_" + e), float)}
+            if S["kin"]:
+                kb = ent_kinetics(prev[("KINETICS", 1)])
+                for c in kb["comps"]:
+                    m = row.get("KIN_" + c["name"])
+                    if not isinstance(m, float):
+                        raise Skip("KIN column missing")
+                    for e, v in kin_formula(chem, c):
+                        if e in obs:
+                            obs[e] += v * F(m)
+            steprows.append((i, a_k, obs))
+        out.append({"sim": simno, "coq": coq, "expected": expected, "after": after, "amounts": amounts, "nsteps": nsteps,
+                    "amt": amt, "rinv": rinv, "base": base, "steprows": steprows, "has_mix": bool(sim["mix"])})
+        prev = cur
+    return out
+
+
+def scale_py(expected, e):
+    if e == "Charge":
+        return sum((abs(v) for k, v in expected.items() if k not in ("H", "O", "Charge")), F(0))
+    return abs(expected.get(e, F(0)))
+
+
+def diagnose(case):
+    """python mirror of Checker.check_case (exact Fractions) -> list of problems"""
+    bad = []
+    exp, aft = case["expected"], case["after"]
+    for e in sorted(set(exp) | set(aft)):
+        d = abs(aft.get(e, F(0)) - exp.get(e, F(0)))
+        if d > TOL * scale_py(exp, e):
+            bad.append({"element": e, "expected": float(exp.get(e, 0)), "observed": float(aft.get(e, 0)),
+                        "deviation": float(d), "allowed": float(TOL * scale_py(exp, e))})
+    for a in case["amounts"]:
+        if a < 0:
+            bad.append({"negative_amount": float(a)})
+    return bad
+
+
+def diagnose_rows(case):
+    bad = []
+    for i, a_k, obs in case["steprows"]:
+        for e, v in sorted(obs.items()):
+            if e in ("H", "O") and case.get("skip_ho"):
+                continue
+            ex = case["base"].get(e, F(0)) + a_k * case["rinv"].get(e, F(0))
+            sc = abs(ex)
+            if abs(v - ex) > TOL * sc + F(1, 10 ** 30):
+                bad.append({"step": i, "element": e, "expected": float(ex), "observed": float(v), "deviation": float(abs(v - ex)),
+                            "allowed": float(TOL * sc)})
+    return bad
